@@ -2,6 +2,9 @@ import MidnightZK.Model.C11.Jubjub
 import MidnightZK.Proofs.C11.Edwards
 import MidnightZK.Proofs.C11.Jubjub
 import MidnightZK.Proofs.C11.Toy
+import MidnightZK.Model.C11.Params
+import MidnightZK.Model.C11.Codec
+import MidnightZK.Gen.C11Constants
 /-!
 # C11 — curve types implement the group law; encodings are canonical and checked
 
@@ -162,5 +165,90 @@ theorem ext_is_identity_iff [DecidableEq F] (P : Ext F) (hP : P.z ≠ 0) :
 
 example : (Ext.identity : Ext Toy.K).isIdentity = true :=
   (ext_is_identity_iff _ identity_spec.1.z_ne).2 identity_spec.2
+
+/-! ## Constants of the Rust sources (regenerated into `Gen/C11Constants.lean` on every run) -/
+section constants
+open Gen.C11
+
+/-- `g1.rs: B`, `g2.rs: G2_B` are the Montgomery forms (`·2³⁸⁴ mod p`) of `4` and `4 + 4u`;
+`fp.rs: MODULUS` is the BLS12-381 base modulus of the model. -/
+theorem bls_curve_constants :
+    blsModulus = Params.blsP ∧ g1BMont = 4 * 2 ^ 384 % Params.blsP ∧
+    g2BMont0 = 4 * 2 ^ 384 % Params.blsP ∧ g2BMont1 = 4 * 2 ^ 384 % Params.blsP := by
+  decide +kernel
+
+/-- `fp.rs: ZETA_BASE` (used by `endo`) is the Montgomery form of the model's `ζ`, a primitive
+cube root of unity of the base field. -/
+theorem bls_zeta_spec :
+    blsZetaMont = Params.blsZeta * 2 ^ 384 % Params.blsP ∧
+    powMod Params.blsZeta 3 Params.blsP = 1 ∧ Params.blsZeta ≠ 1 := by
+  decide +kernel
+
+/-- Encoded sizes of `g1.rs` / `g2.rs`, and room for the three flag bits: `p < 2³⁸¹`. The scalar
+width handed to `blst_p1_mult` (255) covers the scalar field. -/
+theorem bls_encoding_layout :
+    g1CompressedSize = 48 ∧ g1UncompressedSize = 96 ∧ g2CompressedSize = 96 ∧
+    g2UncompressedSize = 192 ∧ Params.blsP < 2 ^ (8 * 48 - 3) ∧ Params.blsR < 2 ^ g1MulBits := by
+  decide +kernel
+
+/-- `jubjub/curve.rs`: `EDWARDS_D = -(10240/10241)`, `EDWARDS_D2 = 2·d`, `FR_MODULUS_BYTES` is the
+subgroup order of the model, the generator is the model's; `multiply` skips 4 of 256 bits and
+the order fits the remaining 252. -/
+theorem jubjub_constants :
+    jjD = Params.jjD ∧ (jjD * 10241 + 10240) % Params.blsR = 0 ∧ jjD2 = 2 * jjD % Params.blsR ∧
+    jjD2 = Params.jjD2 ∧ jjFrModulus = Params.jjR ∧ jjGenU = Params.jjGenU ∧
+    jjGenV = Params.jjGenV ∧ jjMulSkippedBits = 4 ∧ Params.jjR < 2 ^ (256 - jjMulSkippedBits) := by
+  decide +kernel
+
+/-- The Jubjub generator of the source satisfies `-u² + v² = 1 + d·u²·v²` modulo the base field. -/
+theorem jubjub_generator_on_curve :
+    (Params.blsR - jjGenU * jjGenU % Params.blsR + jjGenV * jjGenV) % Params.blsR
+      = (1 + jjD * (jjGenU * jjGenU % Params.blsR) % Params.blsR * (jjGenV * jjGenV)) % Params.blsR := by
+  decide +kernel
+
+/-- Numerical side conditions of completeness for the actual Jubjub constants: Euler's criterion
+gives `d^((q-1)/2) = -1` (so `d` is a non-residue once `q` is known prime — property C10), and
+`-1` has the explicit square root below. -/
+theorem jubjub_completeness_witnesses :
+    powMod jjD ((Params.blsR - 1) / 2) Params.blsR = Params.blsR - 1 ∧
+    (0x8d51ccce760304d0ec030002760300000001000000000000 *
+      0x8d51ccce760304d0ec030002760300000001000000000000) % Params.blsR = Params.blsR - 1 ∧
+    2 % Params.blsR ≠ 0 := by
+  decide +kernel
+
+/-- `curve25519/curve.rs`: `CURVE_A = -1`, `CURVE_D = -(121665/121666)`. -/
+theorem curve25519_constants :
+    edA = Params.edP - 1 ∧ edD = Params.edD ∧ (edD * 121666 + 121665) % Params.edP = 0 := by
+  decide +kernel
+
+/-- `bn256/curve.rs`: `G1: y² = x³ + 3` with generator `(1, 2)`; `G2_B·(9 + u) = 3`; the G2
+generator is on the twist; the order hard-coded in `is_torsion_free` is the scalar modulus. -/
+theorem bn_constants :
+    bnG1A = 0 ∧ bnG1B = 3 ∧ bnG1GenY * bnG1GenY = bnG1GenX * bnG1GenX * bnG1GenX + bnG1B ∧
+    bnG2A0 = 0 ∧ bnG2A1 = 0 ∧ bnTorsionOrder = Params.bnR ∧
+    ((⟨⟨bnG2B0⟩, ⟨bnG2B1⟩⟩ : Fp2 Params.bnP) * ⟨⟨9⟩, ⟨1⟩⟩ = ⟨⟨3⟩, ⟨0⟩⟩) ∧
+    bnG2B0 = Params.bnB2c0 ∧ bnG2B1 = Params.bnB2c1 ∧
+    (let x : Fp2 Params.bnP := ⟨⟨bnG2GenX0⟩, ⟨bnG2GenX1⟩⟩
+     let y : Fp2 Params.bnP := ⟨⟨bnG2GenY0⟩, ⟨bnG2GenY1⟩⟩
+     y * y = x * x * x + ⟨⟨bnG2B0⟩, ⟨bnG2B1⟩⟩) := by
+  decide +kernel
+
+/-- `k256/curve.rs`: `base_zeta`, `scalar_zeta` are primitive cube roots of unity modulo the base
+and the scalar modulus. -/
+theorem k256_zeta_constants :
+    powMod k256BaseZeta 3 Params.secpP = 1 ∧ k256BaseZeta ≠ 1 ∧ k256BaseZeta < Params.secpP ∧
+    powMod k256ScalarZeta 3 Params.secpN = 1 ∧ k256ScalarZeta ≠ 1 ∧ k256ScalarZeta < Params.secpN := by
+  decide +kernel
+
+/-- The generators used by the model lie on their curves (model-side sanity of `Params`). -/
+theorem model_generators_on_curve :
+    wOnCurve (0 : Fp Params.blsP) 4 (some (⟨Params.g1GenX⟩, ⟨Params.g1GenY⟩)) = true ∧
+    wOnCurve (0 : Fp2 Params.blsP) ⟨4, 4⟩
+      (some (⟨⟨Params.g2GenX0⟩, ⟨Params.g2GenX1⟩⟩, ⟨⟨Params.g2GenY0⟩, ⟨Params.g2GenY1⟩⟩)) = true ∧
+    wOnCurve (0 : Fp Params.secpP) 7 (some (⟨Params.secpGenX⟩, ⟨Params.secpGenY⟩)) = true ∧
+    eOnCurve (-(1 : Fp Params.edP)) ⟨Params.edD⟩ (⟨Params.edGenX⟩, ⟨Params.edGenY⟩) = true := by
+  decide +kernel
+
+end constants
 
 end MidnightZK.C11
